@@ -23,7 +23,7 @@ LEAN = VERIF / "lean"
 DRIVER = LEAN / ".lake" / "build" / "bin" / "driver"
 EVIDENCE = VERIF / "evidence"
 REPLAYS = VERIF / "replays"
-KNOWN = VERIF / "known_findings.json"
+KNOWN = VERIF / "known_findings"
 ALLOWED_AXIOMS = {"propext", "Classical.choice", "Quot.sound"}
 FORBIDDEN = re.compile(
     r"\bsorry\b|\badmit\b|^\s*axiom\s|native_decide|bv_decide|implemented_by|\bunsafe\s|maxHeartbeats\s+0\b",
@@ -264,10 +264,16 @@ class Result:
         self.violations.append({"key": key, "what": what, "replay": replay, "count": 1})
 
 
-def load_known():
-    if KNOWN.exists():
-        return json.loads(KNOWN.read_text())
-    return {"findings": [], "fixed": []}
+def load_known(prop=None):
+    """known_findings/Cxx.json: {"findings": [{"property","key","what",...}], "fixed": ["fixed: property=.. <commit> <what>"]}"""
+    out = {"findings": [], "fixed": []}
+    for p in sorted(KNOWN.glob("C*.json")):
+        if prop is not None and p.stem != prop:
+            continue
+        d = json.loads(p.read_text())
+        out["findings"] += d.get("findings", [])
+        out["fixed"] += d.get("fixed", [])
+    return out
 
 
 def jsonable(o):
